@@ -82,7 +82,10 @@ pub const SCH: [&str; 3] = ["basic", "aug", "pop"];
 
 pub fn edge_scalars() -> Vec<RScalar> {
     vec![RScalar::ONE, RScalar::from(2u64), -RScalar::ONE, -RScalar::from(2u64), RScalar::from(128u64),
-         RScalar::from(0x8000u64), hkdf_scalar(b"BLS-SIG-KEYGEN-SALT-", b"edge-key")]
+         RScalar::from(0x8000u64), hkdf_scalar(b"BLS-SIG-KEYGEN-SALT-", b"edge-key"),
+         // bytes that XOR / AND / add to zero, no byte with the top bit set, a single low byte
+         RScalar::from(5u64), RScalar::from(0x0101u64), RScalar::from(0x7f7fu64), RScalar::from(0x0303_0000u64),
+         RScalar::from(0x00ff_0001u64), RScalar::from(0x8080u64), RScalar::from(0x0102_0304_0506_0708u64)]
 }
 
 pub fn msg_lengths(tier_thorough: bool) -> Vec<usize> {
@@ -455,6 +458,32 @@ pub fn gen_c07(rng: &mut Prng, thorough: bool, out: &mut Out) {
                 v(out, &sum_sig, &RScalar::ZERO, &m);
                 v(out, &RScalar::ZERO, &sum_sk, &m);
             }
+            // repeated signers: the accumulated key counts every listed key, adjacent or not
+            {
+                let a = rng.scalar();
+                let b = rng.scalar();
+                let c = rng.scalar();
+                for keys in [vec![a, b, c, c], vec![a, a], vec![a, b, a], vec![c, c, c], vec![a, b, b, c]] {
+                    let toks: Vec<String> = keys.iter().map(|k| format!("q{}", hs(k))).collect();
+                    out.case(g1, &format!("multi_pk [ {} ]", toks.join(" ")));
+                }
+                // one signature of another scheme at every position of lists of length 2..5
+                let m = rng.bytes(4);
+                let other = if scheme == 0 { 2u8 } else { 0u8 };
+                for n in 2..=5usize {
+                    for pos in 0..n {
+                        let mut l = String::from("[");
+                        for i in 0..n {
+                            let k = rng.scalar();
+                            let sch = if i == pos { other } else { scheme };
+                            l.push_str(&format!(" c{} p{}", SCH[sch as usize], hs(&sig_dlog(g1, sch, &k, &m))));
+                        }
+                        l.push_str(" ]");
+                        out.case(g1, &format!("multi_from_sigs {}", l));
+                        out.case(g1, &format!("agg_from_sigs {}", l));
+                    }
+                }
+            }
             let sk = rng.scalar();
             let sd = sig_dlog(g1, scheme, &sk, b"one");
             out.case(g1, "multi_from_sigs [ ]");
@@ -800,6 +829,9 @@ pub fn gen_c13(rng: &mut Prng, thorough: bool, out: &mut Out) {
             if len > 300 {
                 continue;
             }
+            // built for the identity signature (K = 1): must not open with it
+            let (iu, iv, iw) = tl_seal_ref(g1, &RScalar::ZERO, &msg, &idp, &d, &seed);
+            dec(out, &iu, &iv, &iw, scheme, scheme, &RScalar::ZERO);
             // wrong id / key / scheme / identity
             let mut id2 = id.clone();
             id2.push(1);
@@ -1020,6 +1052,9 @@ pub fn gen_c04(rng: &mut Prng, _thorough: bool, out: &mut Out) {
             let tsig = sig_dlog(g1, scheme, &sk, b"id");
             out.case(g1, &format!("tlct_decrypt q00 x{} x{} c{} c{} p{}", hx(&tv), hx(&tw), sc, sc, hs(&tsig)));
             out.case(g1, &format!("tlct_decrypt q{} x{} x{} c{} c{} p00", hs(&tu), hx(&tv), hx(&tw), sc, sc));
+            // a ciphertext anyone can build for the identity "signature": K = e(identity, U) = 1, everything else consistent
+            let (iu, iv, iw) = tl_seal_ref(g1, &RScalar::ZERO, &msg, &idp, &d, &seed);
+            out.case(g1, &format!("tlct_decrypt q{} x{} x{} c{} c{} p00", hs(&iu), hx(&iv), hx(&iw), sc, sc));
             out.case(g1, &format!("pk_encrypt_time_lock q00 c{} x00 x00 x{}", sc, hx(&seed)));
             out.case(g1, &format!("sks_sign h1:{} c{} x00", "00".repeat(32), sc));
         }
@@ -1308,6 +1343,17 @@ pub fn gen_c17(rng: &mut Prng, thorough: bool, out: &mut Out) {
                 out.case(g1, &format!("bytes_rt wskenum x{}", hx(&b)));
             }
         }
+        // empty and one-element lists through every list-consuming call
+        for op in ["sig_from_shares", "pk_from_shares", "sk_combine", "scdk_from_shares", "egdk_from_shares", "multi_from_sigs", "agg_from_sigs", "multi_pk"] {
+            out.case(g1, &format!("{} [ ]", op));
+        }
+        {
+            let k = rng.scalar();
+            let h = eta(b"m", &dst(g1, 0));
+            out.case(g1, &format!("sig_from_shares [ cbasic {} ]", pt_share_tok(1, &enc_sig(g1, &(h * k)))));
+            out.case(g1, &format!("pk_from_shares [ {} ]", pt_share_tok(1, &enc_pk(g1, &k))));
+            out.case(g1, &format!("sk_combine [ {} ]", share_tok(1, &k)));
+        }
         // ciphertexts with degenerate payload sizes through the consuming calls
         let sk = rng.scalar();
         for n in [0usize, 1, 2, 31, 32, 33] {
@@ -1341,6 +1387,18 @@ pub fn gen_c17(rng: &mut Prng, thorough: bool, out: &mut Out) {
 
 
 pub fn gen_c20(rng: &mut Prng, thorough: bool, out: &mut Out) {
+    // every key / challenge constructor of the public API (facade, wrappers, enum) on the same inputs
+    for g1 in [true, false] {
+        for n in [0usize, 1, 31, 32, 33, 64] {
+            let d = rng.bytes(n);
+            out.case(g1, &format!("keygen_hash x{}", hx(&d)));
+        }
+        for _ in 0..3 {
+            out.case(g1, &format!("keygen_seeded x{}", hx(&rng.bytes(32))));
+            out.case(g1, &format!("keygen_tap x{} x{} x{}", hx(&rng.bytes(32)), hx(&rng.bytes(32)), hx(&rng.bytes(32))));
+        }
+    }
+
     for g1 in [true, false] {
         let n = if thorough { 24 } else { 6 };
         let pk = rng.scalar();
@@ -1369,6 +1427,18 @@ pub fn gen_c20(rng: &mut Prng, thorough: bool, out: &mut Out) {
 }
 
 pub fn gen_c03(rng: &mut Prng, thorough: bool, out: &mut Out) {
+    // every key / challenge constructor of the public API (facade, wrappers, enum) on the same inputs
+    for g1 in [true, false] {
+        for n in [0usize, 1, 31, 32, 33, 64] {
+            let d = rng.bytes(n);
+            out.case(g1, &format!("keygen_hash x{}", hx(&d)));
+        }
+        for _ in 0..3 {
+            out.case(g1, &format!("keygen_seeded x{}", hx(&rng.bytes(32))));
+            out.case(g1, &format!("keygen_tap x{} x{} x{}", hx(&rng.bytes(32)), hx(&rng.bytes(32)), hx(&rng.bytes(32))));
+        }
+    }
+
     for g1 in [true, false] {
         for len in [0usize, 1, 31, 32, 33, 64, 200] {
             for _ in 0..(if thorough { 6 } else { 2 }) {
